@@ -222,6 +222,72 @@ theorem C04_three_valued :
   generalize Opnd.eval r a = v
   cases v <;> simp [Opnd.eval]
 
+/-! ### execute_string, nop_regexes -/
+
+/-- **`execute_string` = one cursor per statement**: when every statement of the script is accepted, the i-th
+    returned cursor holds exactly what a separate `cursor.execute` of the i-th statement shows — its own status row,
+    names and rowcount — and the database ends where the one-by-one history ends. -/
+theorem C04_execute_string (db : DB) (ss : List Stmt) (os : List Obs)
+    (h : (executeString Impl.step db ss).1 = .ok os) :
+    (runWith Impl.step db ss).1 = os.map .ok ∧ (runWith Impl.step db ss).2 = (executeString Impl.step db ss).2 := by
+  induction ss generalizing db os with
+  | nil => simp only [executeString, Except.ok.injEq] at h; subst h; exact ⟨rfl, rfl⟩
+  | cons s ss ih =>
+    simp only [executeString, runWith] at h ⊢
+    cases hs : Impl.step db s with
+    | error e => simp [hs, Except.map] at h
+    | ok r =>
+      obtain ⟨db', o⟩ := r
+      simp only [hs] at h ⊢
+      cases hr : (executeString Impl.step db' ss).1 with
+      | error e => simp [hr, Except.map] at h
+      | ok os' =>
+        simp only [hr, Except.map, Except.ok.injEq] at h
+        subst h
+        obtain ⟨h1, h2⟩ := ih db' os' hr
+        exact ⟨by simp [h1], h2⟩
+
+/-- … and a rejected statement ends the script with its error, leaving the database as the accepted prefix left it
+    (`executeString` stops at the first error; nothing after it runs). -/
+theorem C04_execute_string_error (db : DB) (s : Stmt) (ss : List Stmt) (e : Err) (h : Impl.step db s = .error e) :
+    executeString Impl.step db (s :: ss) = (.error e, db) := by
+  simp [executeString, h]
+
+/-- witness: a script run on one shared cursor misreports — a DELETE that removes nothing, followed by a two-row
+    INSERT, shows rowcount 2 for the DELETE (`executeStringShared`), where `execute_string` must show 0. -/
+theorem C04_shared_cursor_misreports :
+    ((executeStringShared Impl.step [⟨1, [[some 1]]⟩]
+        [.delete 0 (some (.const .f)), .insert 0 none (.values 1 [[some 5], [some 6]])]).1.map fun os => os.map (·.rowcount)) = .ok [2, 2] ∧
+    ((executeString Impl.step [⟨1, [[some 1]]⟩]
+        [.delete 0 (some (.const .f)), .insert 0 none (.values 1 [[some 5], [some 6]])]).1.map fun os => os.map (·.rowcount)) = .ok [0, 2] := by
+  decide
+
+/-- **`nop_regexes` look at the start of the statement only**: for a plain-word pattern no longer than the
+    statement's leading keyword, whether the statement is no-op'd depends on that keyword alone — not on anything
+    that follows (identifiers, literals, bound values containing the word). -/
+theorem C04_nop_only_at_start (word head rest rest' : List Char) (h : word.length ≤ head.length) :
+    matchAtStart word (head ++ rest) = matchAtStart word (head ++ rest') := by
+  simp only [matchAtStart, List.length_append]
+  have e1 : (head ++ rest).take word.length = head.take word.length := by
+    rw [List.take_append_of_le_length h]
+  have e2 : (head ++ rest').take word.length = head.take word.length := by
+    rw [List.take_append_of_le_length h]
+  rw [e1, e2]
+  have : decide (word.length ≤ head.length + rest.length) = decide (word.length ≤ head.length + rest'.length) := by
+    simp [Nat.le_trans h (Nat.le_add_right _ _)]
+  rw [this]
+
+/-- … so on an instance configured with words that no DML keyword starts with, every DML statement behaves exactly
+    as without the option. -/
+theorem C04_nop_no_effect (words : List (List Char)) (text : List Char) (db : DB) (s : Stmt)
+    (h : ∀ w ∈ words, matchAtStart w text = false) : Impl.stepNop words text db s = Impl.step db s := by
+  have : words.any (fun w => matchAtStart w text) = false := by
+    rw [List.any_eq_false]; intro w hw; simp [h w hw]
+  simp [Impl.stepNop, this]
+
+example : matchAtStart "GRANT".toList "insert into GRANTED0 (CALL0) values (1)".toList = false ∧
+    matchAtStart "CALL".toList "call p()".toList = true := by decide
+
 /-! ### DDL status rows -/
 
 /-- **DDL status text**: for every object name, CREATE DATABASE / SCHEMA / TABLE / VIEW and DROP answer with
